@@ -597,6 +597,9 @@ func normPanic(p string) string {
 // kind and operation.
 func classify(c *compiled, wk *wkind, path []int, f *failure) (sig, what string) {
 	if f.Kind == "panic" {
+		if f.OpKind == "length=" && (f.Class == "map" || f.Class == "map[string]interface{}") {
+			f.OpKind = "set" // `x.length = n` on a map wrapper is an ordinary property assignment
+		}
 		sig = fmt.Sprintf("host-panic|%s|%s|%s", f.Class, f.OpKind, normPanic(f.Panic))
 		what = fmt.Sprintf("wrapper kind %s, history %v: Go panic %q escapes the script operation (a TypeError/RangeError is expected where the host type cannot represent the operation)", wk.name, pathNames(wk, path), f.Panic)
 		return
